@@ -39,6 +39,10 @@ var c18Confs = []c18Conf{
 	{"nonlive-only-lru1", "", "30m", 0, 1},
 	{"live-only-lru1", "2h", "", 1, 0},
 	{"equal-lifetimes-lru1", "30m", "30m", 1, 1},
+	// a lifetime of zero (or less) is a configuration too: nothing is ever "measured less than 0 ago", every query probes
+	{"zero-nonlive-map", "2h", "0s", 0, 0},
+	{"zero-live-lru1", "0s", "30m", 1, 1},
+	{"negative-nonlive-lru1", "2h", "-1s", 1, 1},
 }
 
 type c18Probe struct {
